@@ -67,6 +67,8 @@ type Out struct {
 	ticks    int
 	began    int64
 	sampled  int
+
+	recycleTicks int
 }
 
 func OpenOut() (*Out, error) {
@@ -191,6 +193,29 @@ func (o *Out) Tick(n int) {
 	if o.ticks%n == 0 {
 		o.Flush()
 	}
+}
+
+// ShouldRecycle reports (checking every 32nd call) whether this worker's
+// resident set has outgrown VERIF_MAXRSS_MB (default 1500).  Long simulated runs
+// accumulate memory that is never returned (one testing.T per bubble, the race
+// detector's shadow state): the worker then finishes with reason "restart" and
+// the driver starts a fresh process at the next case.
+func (o *Out) ShouldRecycle() bool {
+	o.recycleTicks++
+	if o.recycleTicks%32 != 0 {
+		return false
+	}
+	b, err := os.ReadFile("/proc/self/statm")
+	if err != nil {
+		return false
+	}
+	var size, rss int64
+	fmt.Sscan(string(b), &size, &rss)
+	limit := int64(1500)
+	if v := os.Getenv("VERIF_MAXRSS_MB"); v != "" {
+		fmt.Sscan(v, &limit)
+	}
+	return rss*int64(os.Getpagesize()) > limit<<20
 }
 
 // Finish writes the remaining statistics.  Reason: "done", "restart".
